@@ -84,7 +84,6 @@ Definition judge (k : c05case) : N :=
       else
       let gc : N := if negb (g_nonempty sv) then 1%N else if negb (g_nosep (k5_def k) sv) then 2%N
                     else if negb (g_shape sv) then 3%N else if negb (g_ap (k5_def k) sv) then 4%N
-                    else if negb (g_int32_enum (k5_def k)) then 5%N
                     else if negb (g_declared (k5_def k) sv) then 6%N
                     else if negb (g_query_obj_found (k5_def k)) then 7%N else 0%N in
       match expected pi64 pi32 pf (k5_def k) sv with
